@@ -215,3 +215,87 @@ Fixpoint read_all_loop (n : nat) (d : Z) (cr : bool) (s : fp) : res (list (list 
 
 Definition read_all (d : Z) (cr : bool) (s : fp) : res (list (list Z)) * fp :=
   read_all_loop (pending s + length (fp_buf s) + 2)%nat d cr s.
+
+(* ---- other loops over ReadCompressed::Read (property C03) ---- *)
+
+(* std::size_t ReadCompressed::ReadOrEOF(void *to, std::size_t amount):
+     while (amount) { got = Read(to, amount); if (!got) break; to += got; amount -= got; } *)
+Fixpoint rc_read_or_eof_loop (fuel amount : nat) (acc : list Z) (rc : rcstate) (o : os) : res (list Z) * rcstate * os :=
+  match amount with
+  | O => (Ok acc, rc, o)
+  | S _ =>
+    match fuel with
+    | O => (Fail EFuel, rc, o)
+    | S f =>
+      match rc_read amount rc o with
+      | (Fail e, rc', o') => (Fail e, rc', o')
+      | (Ok [], rc', o') => (Ok acc, rc', o')
+      | (Ok l, rc', o') => rc_read_or_eof_loop f (amount - length l) (acc ++ l) rc' o'
+      end
+    end
+  end.
+Definition rc_read_or_eof (amount : nat) (rc : rcstate) (o : os) : res (list Z) * rcstate * os :=
+  rc_read_or_eof_loop (S amount) amount [] rc o.
+
+(* ReadCompressed rc(fd); rc.ReadOrEOF(to, amount) *)
+Definition rc_open_read_or_eof (amount : nat) (o : os) : res (list Z) * os :=
+  match read_factory o with
+  | (Fail e, o') => (Fail e, o')
+  | (Ok rc, o') => let '(r, _, o'') := rc_read_or_eof amount rc o' in (r, o'')
+  end.
+
+(* the body loop of WARCReader::Read (preprocess/warc.cc):
+     while (start != out.size()) { got = reader_.Read(&out[start], out.size() - start);
+                                   UTIL_THROW_IF(!got, EndOfFileException, ...); start += got; } *)
+Fixpoint warc_body_loop (fuel missing : nat) (acc : list Z) (rc : rcstate) (o : os) : res (list Z) * rcstate * os :=
+  match missing with
+  | O => (Ok acc, rc, o)
+  | S _ =>
+    match fuel with
+    | O => (Fail EFuel, rc, o)
+    | S f =>
+      match rc_read missing rc o with
+      | (Fail e, rc', o') => (Fail e, rc', o')
+      | (Ok [], rc', o') => (Fail EEndOfFile, rc', o')
+      | (Ok l, rc', o') => warc_body_loop f (missing - length l) (acc ++ l) rc' o'
+      end
+    end
+  end.
+Definition warc_body (missing : nat) (rc : rcstate) (o : os) : res (list Z) * rcstate * os :=
+  warc_body_loop (S missing) missing [] rc o.
+
+(* ReadStream<Codec>::ReadInput (util/compress.cc): each refill of the decompressor's input is
+   ReadOrEOF(file, in_buffer, kInputBuffer).  [refills] = the successive buffers the codec is
+   given until a refill comes back empty (end of the compressed file). *)
+Fixpoint read_stream_refills (fuel : nat) (bufsize : nat) (o : os) : res (list (list Z)) * os :=
+  match fuel with
+  | O => (Fail EFuel, o)
+  | S f =>
+    match read_or_eof bufsize o with
+    | (Fail e, o') => (Fail e, o')
+    | (Ok [], o') => (Ok [], o')
+    | (Ok l, o') =>
+      match read_stream_refills f bufsize o' with
+      | (Ok ls, o'') => (Ok (l :: ls), o'')
+      | r => r
+      end
+    end
+  end.
+
+(* a whole line-filter tool (remove_long_lines, and the shape of every FilePiece -> FileStream tool):
+   read all records under one outcome script, write the kept ones, each followed by '\n'
+   (operator<<(StringPiece) then operator<<(char)), through a FileStream under another script *)
+Definition line_filter_tool (keep : list Z -> bool) (cap bcap : nat) (src : list Z) (rscript wscript : list outcome) : res (list Z) :=
+  match fp_open_read cap (os_init src rscript) with
+  | Fail e => Fail e
+  | Ok s =>
+    match read_all 10%Z true s with
+    | (Fail e, _) => Fail e
+    | (Ok recs, _) =>
+      match bs_run (flat_map (fun r => [r; [10%Z]]) (filter keep recs)) (mkBs [] bcap) (os_init [] wscript) with
+      | (Ok _, o) => Ok (os_sink o)
+      | (Fail e, _) => Fail e
+      end
+    end
+  end.
+
